@@ -1,0 +1,23 @@
+//go:build verif
+
+package server
+
+import (
+	"context"
+	"net"
+
+	"google.golang.org/grpc"
+)
+
+// SimDialOptions are appended to the dial options of the gRPC client every
+// pgsql session opens towards the immudb server (build tag verif only): the
+// simulation harness routes that connection over an in-memory listener.
+var SimDialOptions []grpc.DialOption
+
+func simDialOptions() []grpc.DialOption { return SimDialOptions }
+
+// SimHandleConn serves one client connection handed over by the simulation
+// harness instead of being accepted from the TCP listener.
+func (s *pgsrv) SimHandleConn(ctx context.Context, conn net.Conn) error {
+	return s.handleRequest(ctx, conn)
+}
